@@ -1399,7 +1399,9 @@ func (c *Cluster) pin(
 	}
 
 	// Handle pin updates when the option is set
-	if update := pin.PinUpdate; update != cid.Undef && !update.Equals(pin.Cid) {
+	// (only when nobody is being evacuated: re-pinning away from a peer
+	// must re-allocate this pin, not re-run the update from its source)
+	if update := pin.PinUpdate; update != cid.Undef && !update.Equals(pin.Cid) && len(blacklist) == 0 {
 		pin, err := c.PinUpdate(ctx, update, pin.Cid, pin.PinOptions)
 		return pin, true, err
 	}
